@@ -119,6 +119,7 @@ func (w *World) ClientName(id int64) string {
 //	lookup: X -> {c, cid, authd}      GetControlConnectionByClientID for every client name
 //	conns:  c -> {sess, reg, tun, authd, cid, tcl}  for every accepted connection
 //	listed: [c...]                     ListAuthenticated
+//	slist:  [c...]                     SessionManager.ListConnections
 //	ctl, tun, total, count             GetConnectionStats / GetActiveChannels
 func (w *World) Projection() map[string]any {
 	ids := make([]int64, len(w.ClientNames))
@@ -149,6 +150,11 @@ func (w *World) Projection() map[string]any {
 		listed = append(listed, w.ConnName(a.ConnID))
 	}
 	sort.Strings(listed)
-	return map[string]any{"lookup": lookup, "conns": conns, "listed": listed,
+	slist := []string{}
+	for _, id := range p.SessionList {
+		slist = append(slist, w.ConnName(id))
+	}
+	sort.Strings(slist)
+	return map[string]any{"lookup": lookup, "conns": conns, "listed": listed, "slist": slist,
 		"ctl": p.Stats.ControlConnections, "tun": p.Stats.TunnelConnections, "total": p.Stats.TotalConnections, "count": p.Count}
 }
